@@ -17,6 +17,10 @@ RX = re.compile(rb"^ZCZC-[A-Za-z]{3}-[A-Za-z]{3}(-[0-9]{6})+(\+[0-9]{4}-[0-9]{7}
 NATIONAL_CODES = (b"EAN", b"NIC", b"NAT", b"NPT", b"NST")
 
 
+# the four originator codes of 47 CFR 11.31 and the Environment Canada convention (ORG WXR, callsign beginning "EC/")
+ORIGINATORS = {b"PEP": "PrimaryEntryPoint", b"CIV": "CivilAuthority", b"WXR": "NationalWeatherService", b"EAS": "BroadcastStation"}
+
+
 def fields(text, ot, parity=0, voting=0):
     org, evt = text[5:8], text[9:12]
     locs = text[13:ot].split(b"-")
@@ -24,9 +28,12 @@ def fields(text, ot, parity=0, voting=0):
     jjj = text[ot + 6:ot + 13]
     call = text[ot + 14:len(text) - 1]
     nat = 1 if (locs == [b"000000"] and evt in NATIONAL_CODES) else 0
-    return "%s %d %d org=%s evt=%s locs=%s dur=%d:%d iss=%d:%d:%d call=%s nat=%d" % (
+    orig = ORIGINATORS.get(org, "Unknown")
+    if orig == "NationalWeatherService" and call.startswith(b"EC/"):
+        orig = "EnvironmentCanada"
+    return "%s %d %d org=%s evt=%s locs=%s dur=%d:%d iss=%d:%d:%d call=%s nat=%d orig=%s" % (
         hx(text), parity, voting, hx(org), hx(evt), ",".join(hx(l) for l in locs),
-        int(tttt[:2]), int(tttt[2:]), int(jjj[:3]), int(jjj[3:5]), int(jjj[5:7]), hx(call), nat)
+        int(tttt[:2]), int(tttt[2:]), int(jjj[:3]), int(jjj[3:5]), int(jjj[5:7]), hx(call), nat, hx(orig.encode()))
 
 
 def oracle_hdr(s, errs=None, counts=None):
